@@ -355,7 +355,7 @@ pub fn run(args: &Args) -> i32 {
         return 2;
     }
     let (uni, depth, cap) = if args.quick() {
-        (Universe { n_nodes: 1, max_epoch: [3, 2], azks_epochs: vec![2], node_contents: vec![1, 2] }, 5, 400_000)
+        (Universe { n_nodes: 1, max_epoch: [3, 2], azks_epochs: vec![2], node_contents: vec![1, 2] }, 6, 1_500_000)
     } else {
         (Universe { n_nodes: 2, max_epoch: [3, 3], azks_epochs: vec![1, 2, 3], node_contents: vec![1, 2, 3] }, 6, 6_000_000)
     };
